@@ -177,4 +177,24 @@ PROPS["C16"] = {
     "log_violations": True,
 }
 
+PROPS["C10"] = {
+    "title": "Created pods are pinned, labelled and stable under the controller's comparison",
+    "level": "exploration",
+    "level_text": "Generated pod templates (nodeSelector, 0-2 required affinity terms with or without matchFields on metadata.name, tolerations, 1-3 containers with resources), nodes (labels; override annotations well-formed, malformed, or of another ExtendedDaemonSet), optional valid setting (subset of containers, a container absent from the template) and both node-assignment modes are fed to the exported CreatePodFromDaemonSetReplicaSet; the oracle checks the pin (nodeName, or the node-name requirement In [node] on every affinity term with the template's matchExpressions preserved), controller owner reference, name labels, template hash, the six default tolerations plus the template's, and per-container resources = annotation override else setting else template. Then a round trip: the pod goes through the API (JSON) and the exported ManageDeployment with an unlimited budget must keep it for the same inputs and must replace it after a template change, an override annotation added/removed, a changed or newly applying setting demand; a foreign EDS's annotation must not matter.",
+    "level_note": "Trusted: the resource-resolution order as stated in the property; ManageDeployment with N=1, maxUnavailable=100% as the 'would be replaced' observer (cross-checkable with the CompareCurrentPodWithNewPodForVerif shim).",
+    "technique": "property-based testing (rapid): reference-model oracle on the created object + round-trip/metamorphic relations through the controller's own comparison",
+    "quick": {"jobs": [rapid_job("created-pod", "^TestC10CreatedPod$", 2500, shards=4)]},
+    "thorough": {"jobs": [rapid_job("created-pod", "^TestC10CreatedPod$", 25000, shards=16, timeout="50m")]},
+}
+
+PROPS["C18"] = {
+    "title": "At most one valid ExtendedDaemonsetSetting applies to a node",
+    "level": "exploration",
+    "level_text": "Generated populations of 1-4 settings in one or two namespaces (creation times equal or different, selectors by labels or expressions including an unusable one, reference present / empty / absent / naming another EDS) and 0-4 labelled nodes; every setting is reconciled (twice) by the real setting reconciler in a generated order - in TestC18AllOrders in every permutation (exhaustive in the order dimension) - and the statuses are judged by a reference verdict: malformed => error, two settings matching a common node never both valid, invalid overlapping => conflict error, well-formed and overlapping no other => valid. Then the real replica-set sync creates pods and each pod's setting label must name a valid setting of that EDS whose selector matches the pod's node.",
+    "level_note": "A setting without reference still counts as an overlapping neighbour (statement is silent); only the pairwise 'never both valid' and the explicit positive case are demanded.",
+    "technique": "property-based testing (rapid) against a reference verdict; exhaustive enumeration of reconcile orders per generated population",
+    "quick": {"jobs": [rapid_job("settings", "^TestC18Settings$", 2000, shards=2), rapid_job("all-orders", "^TestC18AllOrders$", 250, shards=2)]},
+    "thorough": {"jobs": [rapid_job("settings", "^TestC18Settings$", 15000, shards=8, timeout="50m"), rapid_job("all-orders", "^TestC18AllOrders$", 1500, shards=8, timeout="50m")]},
+}
+
 NOT_APPLICABLE = {}
